@@ -107,11 +107,11 @@ def run(ctx):
     cases = c06.corpus_cases("C15")
     ctx.hist("corpus", len(cases))
     evaluate(ctx, cases)
-    n = ctx.n(260, 8000)
+    n = ctx.n(1500, 12000)
     done = 0
-    soft = ctx.t0 + (85 if ctx.tier == "quick" and not ctx.escalated else 1e9)
+    soft = ctx.t0 + (70 if ctx.tier == "quick" and not ctx.escalated else 1e9)
     while done < n and not ctx.out_of_time() and time.time() < soft:
-        k = min(48, n - done)
+        k = min(96, n - done)
         evaluate(ctx, [gen_case(ctx.rng) for _ in range(k)])
         done += k
     _shrinker()[2](ctx)
